@@ -137,7 +137,22 @@ class TimersCtx(BaseCtx):
                 self.second_open_sent = True
                 self.next_arrival = self.world.now() + rng.pick([0.0, 0.5])
                 return ["send", self.k(), self.cfg["second_open"], []]
+            if self.cfg.get("hfail_established") and getattr(self, "gen_hfails", 0) < self.cfg["hfail_established"] \
+                    and self.world.handler_fail_in is None:
+                # the application raises when it is told that the session is established (its event bus is
+                # down): the KEEPALIVE still is a KEEPALIVE for the hold timer
+                self.gen_hfails = getattr(self, "gen_hfails", 0) + 1
+                self.next_arrival = self.world.now()
+                return ["hfail", 1]
             return ["send", self.k(), rp.encode_keepalive().hex(), []]
+        if self.cfg.get("malformed_updates") and rng.chance(0.3):
+            # a well-framed UPDATE whose body is malformed: still an UPDATE for the hold timer
+            from sim.profiles import hostile
+            body = hostile.structured_update(rng, self.cfg)
+            if rng.chance(0.5):
+                body = hostile.mutate(rng, body)
+            self.stats["gen:malformed_update_arrival"] += 1
+            return ["send", self.k(), rp.frame(rp.UPDATE, body[:4000] if len(body) >= 4 else body + bytes(4)).hex(), []]
         if self.cfg.get("rest_sends") and rng.chance(0.25):
             # an operator-originated UPDATE: it may stand in for a KEEPALIVE, it must not suppress one
             self.next_arrival = self.world.now() + rng.pick([0.0, 0.5, self.H / 6.0 if self.H else 1.0])
@@ -193,6 +208,14 @@ class TimersCtx(BaseCtx):
         self.trace.append([self.phase, op[0], [self.tokname(t) for t in toks], rx_kinds])
         for t in toks:
             self.token(t, now, cell_h, rx_kinds)
+        # an UPDATE the agent neither decoded nor reported as malformed (yabgp drops some malformed bodies and
+        # UPDATEs for families it has no name for without a trace: DESIGN A.2) is outside this property's
+        # arrival schedules: whether it counts as an arrival is not judged, and neither is the rest of the run
+        if rp.UPDATE in rx_kinds and self.cfg.get("malformed_updates") and not any(
+                h[0] in ("update_received", "on_update_error") for h in handler):
+            self.stats["update_dropped_without_report(run not judged further)"] += 1
+            self.done = True
+            return
         # arrivals restart the hold timer
         if self.phase in ("openconfirm", "established") and H > 0:
             for ty in rx_kinds:
@@ -201,7 +224,12 @@ class TimersCtx(BaseCtx):
                     self.stats["arrival_restarts_hold"] += 1
         if phase_before == "openconfirm" and rp.OPEN in rx_kinds and not self.done:
             self.stats["second_open_in_openconfirm"] += 1
-        if self.phase == "openconfirm" and rp.KEEPALIVE in rx_kinds:
+        est_fault = any(e[2] == "handler_fault" and e[3] == "on_established" for e in w.log[pos:])
+        if self.phase == "openconfirm" and rp.KEEPALIVE in rx_kinds and est_fault and w.state() == "OPENCONFIRM":
+            # the application refused the 'established' event: the agent may stay in OpenConfirm (the next
+            # KEEPALIVE tries again); the hold timer was restarted all the same (checked through `deadline`)
+            self.stats["established_refused_by_application(tolerated)"] += 1
+        elif self.phase == "openconfirm" and rp.KEEPALIVE in rx_kinds:
             if w.state() != "ESTABLISHED":
                 raise Violation("C03", "session", "%s/keepalive-in-openconfirm-not-established" % cell_h,
                                 "peer KEEPALIVE in OpenConfirm: agent reports %s" % w.state())
@@ -355,9 +383,9 @@ class TimersProfile(BaseProfile):
     runs = {"quick": 40000, "thorough": 1500000}
     rule = ("one run = (configured hold, proposed hold) from {0,3,4,9,30,90,180,65535}^2 + a peer arrival schedule of "
             "KEEPALIVE/UPDATE gaps from {H-e,H,H+e,H/3,0,H/2,3H,...} in OpenConfirm and Established (or total silence in "
-            "OpenSent), all timers fired at their virtual instants with explicit tie order; non-trivial = reached "
+            "OpenSent; 20 % of the runs mix in well-framed UPDATEs with malformed bodies - still UPDATEs for the hold timer -, 10 % let the application raise when told that the session is established), all timers fired at their virtual instants with explicit tie order; non-trivial = reached "
             "Established or observed an expiry; distinct = distinct (phase, op, outputs, arrivals) sequence")
-    probes = ["gen:late_close_of_earlier_connection", "rest_update_sent", "second_open_in_openconfirm", "two_session_runs", "gen:tie_timer_vs_arrival", "same_instant_timers", "expiry_negotiated_hold", "expiry_large_hold",
+    probes = ["gen:malformed_update_arrival", "established_refused_by_application(tolerated)", "gen:late_close_of_earlier_connection", "rest_update_sent", "second_open_in_openconfirm", "two_session_runs", "gen:tie_timer_vs_arrival", "same_instant_timers", "expiry_negotiated_hold", "expiry_large_hold",
               "periodic_keepalive", "arrival_restarts_hold", "closed_after_expiry"]
 
     def gen_config(self, rng, idx, tier):
@@ -381,6 +409,11 @@ class TimersProfile(BaseProfile):
         if cfg.get("peer_open0") and rng.chance(0.3):
             cfg["prelude_late_close"] = True
         cfg["rest_sends"] = rng.chance(0.15)
+        cfg["malformed_updates"] = rng.chance(0.2)
+        if rng.chance(0.1):
+            cfg["hfail_established"] = rng.pick([1, 2, 3])
+            cfg["hfail_only"] = ["on_established"]
+            cfg["hfail_everywhere"] = True
         if rng.chance(0.12):
             cfg["second_open"] = base.gen_open(rng, cfg, "valid", hold=rng.pick([0, 3, 9, 30, 90, 180, 600])).hex()
         return cfg
